@@ -43,28 +43,43 @@ def run(tier, seed):
     ck = Check("C06", tier, seed)
     ck.add_mc(vlib.tlc_model_check("MC_Broadcast", "MC_Broadcast_" + tier, timeout=2400))
     table = load_cases(tier)
-    # every table case of broadcast_shape runs under the default container; a rotating quarter also under the other kinds
+    cases = expand(table, seed)
+    extra = seeded(ck, 1500 if tier == "quick" else 15000)
+    cases = opslib.number(cases + extra)
+    drv = vlib.build_driver("drv_broadcast")
+    # C06 states the failure criterion itself ("succeeds exactly when ..."): accepted incompatible shapes are C06 violations too
+    opslib.run_ops(ck, drv, cases, want="all", label="bcast", describe=lambda c, k: f"{c['op']} {k}")
+    return finish(ck, cases, table, extra)
+
+
+def expand(table, seed):
+    """every table case of broadcast_shape runs under the default container, a rotating one of the other dynamic kinds, and the fixed-dimension kinds"""
     cases = []
     for i, c in enumerate(table):
         if c["op"] == "broadcast_shape":
             cases.append(dict(c, cfg="vec"))
             if all(len(s) > 0 for s in c["shapes"]):
                 cases.append(dict(c, cfg=KINDS[1 + (i + seed) % 3]))
+                # fixed-dimension containers (std::array) take a different, unrolled code path
+                if all(len(s) <= (4 if len(c["shapes"]) == 2 else 3) for s in c["shapes"]) and len(c["shapes"]) <= 3:
+                    cases.append(dict(c, cfg="arr"))
+                if len(c["shapes"]) == 2 and len(c["shapes"][0]) <= 4:
+                    cases.append(dict(c, cfg="arr_vec"))
         else:
             cases.append(c)
-    extra = seeded(ck, 1500 if tier == "quick" else 15000)
-    cases = opslib.number(cases + extra)
-    drv = vlib.build_driver("drv_broadcast")
-    opslib.run_ops(ck, drv, cases, want="valid", label="bcast", describe=lambda c, k: f"{c['op']} {k}")
+    return cases
+
+
+def finish(ck, cases, table, extra):
     ck.nontrivial_count = len({vlib.canon([c["op"], c["shapes"], c["args"]]) for c in cases if len(c["shapes"]) >= 2 and c["shapes"][0] != c["shapes"][1]})
     ck.rule = ("cases = TLC export of all pairs of shapes of dim 0..D, extents 1..E and all triples of dim 1..D3, extents 1..E3 "
-               "(quick D=E=3, D3=2,E3=3; thorough D=E=4, D3=E3=3), compatible and incompatible, for broadcast_shape (four run-time container kinds), "
+               "(quick D=E=3, D3=2,E3=3; thorough D=E=4, D3=E3=3), compatible and incompatible, for broadcast_shape (std::vector of size_t / int, static_vector, utl::vector, std::array of every dimension, and array-with-vector), "
                "shape_broadcast_to, view::broadcast_to and view::broadcast_arrays (every element), plus seeded shapes of dim <= 8 with 2..4 operands; "
                "non-trivial = distinct cases whose first two operand shapes differ")
     ck.exhaustive = True
     ck.extra.update(table_cases=len(table), seeded_cases=len(extra))
     ck.assumptions += ["mixed compile-time/run-time shape containers are covered by C09",
-                       "rejections of incompatible shapes are attributed to C15 (validated here, reported there)"]
+                       "incompatible shapes are part of this property's statement: acceptance of an incompatible combination is reported here (and under C15)"]
     for c in cases[:2] + cases[-2:]: ck.sample(c)
     return ck.finish()
 
